@@ -64,6 +64,15 @@ def objLt (l r : Obj) : Bool :=
   lexLt [l.type, b2n (decide (l.id > 0)), l.id.natAbs, l.version, maskTs l r l.ts]
         [r.type, b2n (decide (r.id > 0)), r.id.natAbs, r.version, maskTs l r r.ts]
 
+/-- `operator>(OSMObject, OSMObject)`: `return rhs < lhs;` -/
+def objGt (l r : Obj) : Bool := objLt r l
+/-- `operator<=(OSMObject, OSMObject)`: `return !(rhs < lhs);` -/
+def objLe (l r : Obj) : Bool := !objLt r l
+/-- `operator>=(OSMObject, OSMObject)`: `return !(lhs < rhs);` -/
+def objGe (l r : Obj) : Bool := !objLt l r
+/-- `operator!=(OSMObject, OSMObject)`: `return !(lhs == rhs);` -/
+def objNe (l r : Obj) : Bool := !objEq l r
+
 /-- `object_order_type_id_version_without_timestamp` -/
 def objLtNoTs (l r : Obj) : Bool :=
   lexLt [l.type, b2n (decide (l.id > 0)), l.id.natAbs, l.version]
